@@ -1,6 +1,38 @@
--- shard 16 of the closeness / tick-gap sweep (C06 (c), (e)): |tick| in [524288, 557056)
+-- shard 16 of the closeness / tick-gap sweep (C06 (c), (e)): |tick| in [524288, 557056), 16 blocks of 2^11
 import Proofs.Lemmas.ClosePred
 namespace Demeter.TickClose
 set_option maxRecDepth 100000 in
-theorem close_shard_16 : chkN closeSweepPred 524288 shardBits = true := by decide +kernel
+theorem close_blk_524288 : chkN closeSweepPred 524288 11 = true := by decide +kernel
+set_option maxRecDepth 100000 in
+theorem close_blk_526336 : chkN closeSweepPred 526336 11 = true := by decide +kernel
+set_option maxRecDepth 100000 in
+theorem close_blk_528384 : chkN closeSweepPred 528384 11 = true := by decide +kernel
+set_option maxRecDepth 100000 in
+theorem close_blk_530432 : chkN closeSweepPred 530432 11 = true := by decide +kernel
+set_option maxRecDepth 100000 in
+theorem close_blk_532480 : chkN closeSweepPred 532480 11 = true := by decide +kernel
+set_option maxRecDepth 100000 in
+theorem close_blk_534528 : chkN closeSweepPred 534528 11 = true := by decide +kernel
+set_option maxRecDepth 100000 in
+theorem close_blk_536576 : chkN closeSweepPred 536576 11 = true := by decide +kernel
+set_option maxRecDepth 100000 in
+theorem close_blk_538624 : chkN closeSweepPred 538624 11 = true := by decide +kernel
+set_option maxRecDepth 100000 in
+theorem close_blk_540672 : chkN closeSweepPred 540672 11 = true := by decide +kernel
+set_option maxRecDepth 100000 in
+theorem close_blk_542720 : chkN closeSweepPred 542720 11 = true := by decide +kernel
+set_option maxRecDepth 100000 in
+theorem close_blk_544768 : chkN closeSweepPred 544768 11 = true := by decide +kernel
+set_option maxRecDepth 100000 in
+theorem close_blk_546816 : chkN closeSweepPred 546816 11 = true := by decide +kernel
+set_option maxRecDepth 100000 in
+theorem close_blk_548864 : chkN closeSweepPred 548864 11 = true := by decide +kernel
+set_option maxRecDepth 100000 in
+theorem close_blk_550912 : chkN closeSweepPred 550912 11 = true := by decide +kernel
+set_option maxRecDepth 100000 in
+theorem close_blk_552960 : chkN closeSweepPred 552960 11 = true := by decide +kernel
+set_option maxRecDepth 100000 in
+theorem close_blk_555008 : chkN closeSweepPred 555008 11 = true := by decide +kernel
+theorem close_shard_16 : chkN closeSweepPred 524288 shardBits = true :=
+  (chkN_join _ 524288 14 (chkN_join _ 524288 13 (chkN_join _ 524288 12 (chkN_join _ 524288 11 close_blk_524288 close_blk_526336) (chkN_join _ 528384 11 close_blk_528384 close_blk_530432)) (chkN_join _ 532480 12 (chkN_join _ 532480 11 close_blk_532480 close_blk_534528) (chkN_join _ 536576 11 close_blk_536576 close_blk_538624))) (chkN_join _ 540672 13 (chkN_join _ 540672 12 (chkN_join _ 540672 11 close_blk_540672 close_blk_542720) (chkN_join _ 544768 11 close_blk_544768 close_blk_546816)) (chkN_join _ 548864 12 (chkN_join _ 548864 11 close_blk_548864 close_blk_550912) (chkN_join _ 552960 11 close_blk_552960 close_blk_555008))))
 end Demeter.TickClose
